@@ -883,7 +883,10 @@ class Sampler():
                         enumerate(blobs[0])]
                 else:
                     self.blobs_dtype = np.array([blobs[0][0]]).dtype
-            blobs = np.squeeze(np.array(blobs, dtype=self.blobs_dtype))
+            blobs = np.array(blobs, dtype=self.blobs_dtype)
+            # Remove axes of length one but always keep the batch axis.
+            blobs = blobs.reshape([len(blobs)] + [
+                n for n in blobs.shape[1:] if n != 1])
         else:
             log_l = np.array(result)
             blobs = None
